@@ -145,6 +145,11 @@ package controllers
 //@   ensures tdPending() == old(tdPending())
 //@   ensures archivedNow() == old(archivedNow())
 
+//@ props C03,C06,C15
+//@ func package-operator.run/internal/controllers.IsExternalResourceNotFound
+//@   readonly
+//@   ensures result ==> err != nil
+
 //@ props C15
 // the cached finalizer is on the object, or a patch adding it was accepted, whenever EnsureCachedFinalizer returns nil
 //@ func package-operator.run/internal/controllers.EnsureFinalizer
